@@ -5,6 +5,7 @@ import (
 	"iter"
 	"math"
 	"slices"
+	"strconv"
 	"strings"
 
 	"reduction.dev/reduction/dkv/kv"
@@ -286,6 +287,22 @@ func (ll *LevelList) NewWithChangeSet(cs *ChangeSet) *LevelList {
 	nextLL.RemoveTables(cs.removals)
 
 	return nextLL
+}
+
+// MaxTableFileNum returns the highest file number among the tables' file names
+// ("000012.sst" is 12), or -1 if there are none.
+func (ll *LevelList) MaxTableFileNum() int64 {
+	maxNum := int64(-1)
+	for _, level := range ll.levels {
+		for t := range level.AllTables() {
+			num, err := strconv.ParseInt(strings.TrimSuffix(t.Name(), ".sst"), 10, 64)
+			if err != nil {
+				continue
+			}
+			maxNum = max(maxNum, num)
+		}
+	}
+	return maxNum
 }
 
 func (ll *LevelList) Diagnostics() string {
